@@ -550,6 +550,9 @@ def sig_of(case, r, kind):
 
 
 def main(run, replay=None):
+    import props.C02m as M2          # second stage: the constructors of sympde/calculus/matrices.py
+    if replay and M2.owns(replay):
+        return M2.main(run, replay)
     rng = run.rng
     quick = run.tier == "quick"
     n = 420 if quick else 4200
@@ -916,4 +919,6 @@ def main(run, replay=None):
         "TerminalExpr is only a supplementary witness here (its own defects belong to C01): a disagreement of the real "
         "lowering with the reference while gden(result) ~ gden(literal) is counted, not reported.",
     ]
+    M2.stage(run, cov, replay)
+    assumptions += M2.ASSUMPTIONS
     return run.finish(cov, assumptions)
